@@ -1,10 +1,202 @@
 import Dmn.Model.Sexp
+import Dmn.Model.RefParser
+import Dmn.Model.Escape
+import Dmn.Model.RefParserLayout
 
-/-! Driver handler for C06 — not implemented yet. -/
+/-! Driver handlers for C06.
+
+* `(c06 rt <mode> <tree>)` → `(rt (toks …) <parse> <surface>)`: the rendering of the tree
+  and what `Ref.parse` / `Ref.parseSurface` make of it.
+* `(c06 parse (toks …))` → `(p <parse> <surface>)`.
+* `(c06 needs <tree>)` → `(b …)`: `needsParens` of every direct child, in print order.
+* `(c06 esc <form> <c>)` → `(e <model> <spelling…>)`: what the lexer model makes of the
+  escape `form ∈ {u4, u6, sur}` spelling the code point, and the hex digit values written.
+* `(c06 gap (s c…))` → `(left n)`: the number of code points `GapLayout.skipGap` leaves.
+* `(c06 table)` → the levels the model reads from `Gen/Prec.lean`.
+
+Trees: `(a n 3)` `(a u 5)` `(a l 2)` `(bin add L R)` `(neg E)` `(between E LO HI)`
+`(inst E q qs…)` `(path E n)` `(filter E I)` `(call F A…)`.  Results: `(ok <tree>)` / `(fail)`. -/
 
 namespace Dmn.Driver.C06
-open Dmn
+open Dmn Dmn.Ref
 
-def handle (_args : List Sexp) : String := "(error not-implemented)"
+def binName : BinOp → String
+  | .or => "or" | .and => "and" | .eq => "eq" | .nq => "nq" | .lt => "lt" | .le => "le"
+  | .gt => "gt" | .ge => "ge" | .in_ => "in" | .add => "add" | .sub => "sub" | .mul => "mul"
+  | .div => "div" | .exp => "exp"
+
+def binOfName : String → Option BinOp
+  | "or" => some .or | "and" => some .and | "eq" => some .eq | "nq" => some .nq
+  | "lt" => some .lt | "le" => some .le | "gt" => some .gt | "ge" => some .ge
+  | "in" => some .in_ | "add" => some .add | "sub" => some .sub | "mul" => some .mul
+  | "div" => some .div | "exp" => some .exp
+  | _ => none
+
+def tokSexp : Tok → Sexp
+  | .name n => .list [.atom "n", Sexp.ofNat n]
+  | .num n => .list [.atom "u", Sexp.ofNat n]
+  | .lit k => .list [.atom "l", Sexp.ofNat k]
+  | .kor => .atom "or" | .kand => .atom "and"
+  | .eq => .atom "eq" | .nq => .atom "nq" | .lt => .atom "lt" | .le => .atom "le"
+  | .gt => .atom "gt" | .ge => .atom "ge"
+  | .between => .atom "between" | .band => .atom "band" | .kin => .atom "in"
+  | .plus => .atom "plus" | .minus => .atom "minus" | .mul => .atom "mul" | .div => .atom "div"
+  | .exp => .atom "exp" | .instance => .atom "instance" | .kof => .atom "of"
+  | .lparen => .atom "lp" | .rparen => .atom "rp" | .lbrack => .atom "lb" | .rbrack => .atom "rb"
+  | .dot => .atom "dot" | .comma => .atom "comma"
+
+def tokOfSexp : Sexp → Option Tok
+  | .list [.atom "n", n] => (Sexp.nat? n).map .name
+  | .list [.atom "u", n] => (Sexp.nat? n).map .num
+  | .list [.atom "l", n] => (Sexp.nat? n).map .lit
+  | .atom "or" => some .kor | .atom "and" => some .kand
+  | .atom "eq" => some .eq | .atom "nq" => some .nq | .atom "lt" => some .lt | .atom "le" => some .le
+  | .atom "gt" => some .gt | .atom "ge" => some .ge
+  | .atom "between" => some .between | .atom "band" => some .band | .atom "in" => some .kin
+  | .atom "plus" => some .plus | .atom "minus" => some .minus | .atom "mul" => some .mul
+  | .atom "div" => some .div | .atom "exp" => some .exp
+  | .atom "instance" => some .instance | .atom "of" => some .kof
+  | .atom "lp" => some .lparen | .atom "rp" => some .rparen
+  | .atom "lb" => some .lbrack | .atom "rb" => some .rbrack
+  | .atom "dot" => some .dot | .atom "comma" => some .comma
+  | _ => none
+
+mutual
+partial def treeSexp : Tree → Sexp
+  | .atom (.name n) => .list [.atom "a", .atom "n", Sexp.ofNat n]
+  | .atom (.num n) => .list [.atom "a", .atom "u", Sexp.ofNat n]
+  | .atom (.lit n) => .list [.atom "a", .atom "l", Sexp.ofNat n]
+  | .bin o l r => .list [.atom "bin", .atom (binName o), treeSexp l, treeSexp r]
+  | .neg e => .list [.atom "neg", treeSexp e]
+  | .between e lo hi => .list [.atom "between", treeSexp e, treeSexp lo, treeSexp hi]
+  | .instOf e q qs => .list (.atom "inst" :: treeSexp e :: Sexp.ofNat q :: qs.map Sexp.ofNat)
+  | .path e n => .list [.atom "path", treeSexp e, Sexp.ofNat n]
+  | .filter e i => .list [.atom "filter", treeSexp e, treeSexp i]
+  | .call f as => .list (.atom "call" :: treeSexp f :: argsSexp as)
+partial def argsSexp : Args → List Sexp
+  | .nil => []
+  | .cons a as => treeSexp a :: argsSexp as
+end
+
+mutual
+partial def treeOfSexp : Sexp → Option Tree
+  | .list [.atom "a", .atom "n", n] => (Sexp.nat? n).map (fun n => .atom (.name n))
+  | .list [.atom "a", .atom "u", n] => (Sexp.nat? n).map (fun n => .atom (.num n))
+  | .list [.atom "a", .atom "l", n] => (Sexp.nat? n).map (fun n => .atom (.lit n))
+  | .list [.atom "bin", .atom o, l, r] => do
+    let o ← binOfName o
+    let l ← treeOfSexp l
+    let r ← treeOfSexp r
+    pure (.bin o l r)
+  | .list [.atom "neg", e] => (treeOfSexp e).map .neg
+  | .list [.atom "between", e, lo, hi] => do
+    let e ← treeOfSexp e
+    let lo ← treeOfSexp lo
+    let hi ← treeOfSexp hi
+    pure (.between e lo hi)
+  | .list (.atom "inst" :: e :: q :: qs) => do
+    let e ← treeOfSexp e
+    let q ← Sexp.nat? q
+    let qs ← qs.mapM Sexp.nat?
+    pure (.instOf e q qs)
+  | .list [.atom "path", e, n] => do
+    let e ← treeOfSexp e
+    let n ← Sexp.nat? n
+    pure (.path e n)
+  | .list [.atom "filter", e, i] => do
+    let e ← treeOfSexp e
+    let i ← treeOfSexp i
+    pure (.filter e i)
+  | .list (.atom "call" :: f :: as) => do
+    let f ← treeOfSexp f
+    let as ← argsOfSexp as
+    pure (.call f as)
+  | _ => none
+partial def argsOfSexp : List Sexp → Option Args
+  | [] => some .nil
+  | a :: as => do
+    let a ← treeOfSexp a
+    let as ← argsOfSexp as
+    pure (.cons a as)
+end
+
+def resSexp : Option Tree → Sexp
+  | some t => .list [.atom "ok", treeSexp t]
+  | none => .list [.atom "fail"]
+
+def modeOf : Sexp → Option Mode
+  | .atom "full" => some .full
+  | .atom "minimal" => some .minimal
+  | _ => none
+
+def toksSexp (ts : List Tok) : Sexp := .list (.atom "toks" :: ts.map tokSexp)
+
+def toksOfSexp : Sexp → Option (List Tok)
+  | .list (.atom "toks" :: ts) => ts.mapM tokOfSexp
+  | _ => none
+
+partial def argsList : Args → List Tree
+  | .nil => []
+  | .cons a as => a :: argsList as
+
+/-- `needsParens` of the direct children, in print order. -/
+def childNeeds : Tree → List Bool
+  | .atom _ => []
+  | .bin o l r => [needsParens (.binL o) l, needsParens (.binR o) r]
+  | .neg e => [needsParens .negArg e]
+  | .between e lo hi => [needsParens .betweenE e, needsParens .betweenLo lo, needsParens .betweenHi hi]
+  | .instOf e _ _ => [needsParens .instE e]
+  | .path e _ => [needsParens .pathE e]
+  | .filter e i => [needsParens .filterE e, needsParens .filterI i]
+  | .call f as => needsParens .callF f :: (argsList as).map (needsParens .callArg)
+
+def escForm (form : String) (c : Nat) : Option (Option Nat × List Nat) :=
+  match form with
+  | "u4" => some (Escape.lexU4 c, Escape.spell4 c)
+  | "u6" => some (Escape.lexU6 c, Escape.spell6 c)
+  | "sur" => some (Escape.lexSur c, Escape.spell4 (Escape.hiSur c) ++ Escape.spell4 (Escape.loSur c))
+  | _ => none
+
+def handle (args : List Sexp) : String :=
+  match args with
+  | [.atom "rt", m, t] =>
+    match modeOf m, treeOfSexp t with
+    | some m, some t =>
+      let ts := print m t
+      toString (Sexp.list [.atom "rt", toksSexp ts, resSexp (parse ts), resSexp (parseSurface ts)])
+    | _, _ => "(error bad-request)"
+  | [.atom "parse", ts] =>
+    match toksOfSexp ts with
+    | some ts => toString (Sexp.list [.atom "p", resSexp (parse ts), resSexp (parseSurface ts)])
+    | none => "(error bad-request)"
+  | [.atom "needs", t] =>
+    match treeOfSexp t with
+    | some t => toString (Sexp.list (.atom "b" :: (childNeeds t).map Sexp.ofBool))
+    | none => "(error bad-request)"
+  | [.atom "esc", .atom form, c] =>
+    match Sexp.nat? c with
+    | some c =>
+      match escForm form c with
+      | some (r, sp) =>
+        let r := match r with
+          | some v => Sexp.list [.atom "ok", Sexp.ofNat v]
+          | none => Sexp.list [.atom "fail"]
+        toString (Sexp.list (.atom "e" :: r :: sp.map Sexp.ofNat))
+      | none => "(error bad-form)"
+    | none => "(error bad-request)"
+  | [.atom "gap", .list (.atom "s" :: cs)] =>
+    -- how many code points are left when the lexer has skipped what it skips before a token
+    match cs.mapM Sexp.nat? with
+    | some cs => toString (Sexp.list [.atom "left", Sexp.ofNat (GapLayout.skipGap cs).length])
+    | none => "(error bad-request)"
+  | [.atom "table"] =>
+    let bins : List BinOp := [.or, .and, .eq, .nq, .lt, .le, .gt, .ge, .in_, .add, .sub, .mul, .div, .exp]
+    toString (Sexp.list (.atom "table" ::
+      bins.map (fun o => Sexp.list [.atom (binName o), Sexp.ofNat (lvl o), Sexp.ofNat (rhsMin o), Sexp.ofBool (isNonassoc o)])
+      ++ [Sexp.list [.atom "neg", Sexp.ofNat negMin], Sexp.list [.atom "hi", Sexp.ofNat hiMin],
+          Sexp.list [.atom "between", Sexp.ofNat betweenLvl], Sexp.list [.atom "instance", Sexp.ofNat instLvl],
+          Sexp.list [.atom "dot", Sexp.ofNat dotLvl], Sexp.list [.atom "paren", Sexp.ofNat parenLvl],
+          Sexp.list [.atom "brack", Sexp.ofNat brackLvl]]))
+  | _ => "(error unknown-request)"
 
 end Dmn.Driver.C06
